@@ -1,7 +1,36 @@
 From Coq Require Import List Arith.
 Import ListNotations.
-From UJ Require Import Base.Graph Cache.Transform.
+From UJ Require Import Engine.Engine Base.Graph Cache.Prune Cache.Transform Cache.TransformProofs.
 
-Theorem C14_placeholder : forall c e, next_id c e = if estale e then S (S (S c)) else S (S c).
-Proof. reflexivity. Qed.
-Print Assumptions C14_placeholder.
+(** The physical plan is self-contained: every store write call of the pruned plan has its store literal
+    and the value as arguments inside the plan ... *)
+Theorem C14_write_call_self_contained :
+  forall p c es output e ce, tctx p c es -> In (e, ce) (entry_ids c es) -> estale e = true -> esource e = false ->
+  let r := fst (physical p c es output) in
+  In (mke (lit_id ce) (write_id ce) (KPos 0)) (pedges r) /\
+  In (mke (enode e) (write_id ce) (KPos 1)) (pedges r) /\
+  In (lit_id ce) (pnodes r) /\ In (enode e) (pnodes r) /\
+  pkind r (lit_id ce) = KLit /\ pkind r (write_id ce) = KCall.
+Proof. exact C14_write_call_args_in_physical. Qed.
+Print Assumptions C14_write_call_self_contained.
+
+(** ... and so has every surviving store read call. *)
+Theorem C14_read_call_self_contained :
+  forall p c es output e ce, tctx p c es -> In (e, ce) (entry_ids c es) ->
+  let r := fst (physical p c es output) in
+  In (read_id ce) (pnodes r) ->
+  In (mke (lit_id ce) (read_id ce) (KPos 0)) (pedges r) /\ In (lit_id ce) (pnodes r) /\
+  pkind r (lit_id ce) = KLit /\ pkind r (read_id ce) = KCall.
+Proof. exact C14_read_call_arg_in_physical. Qed.
+Print Assumptions C14_read_call_self_contained.
+
+(** The transformed plan is a well-formed, acyclic graph (no late HasACycle after the stores were queried). *)
+Theorem C14_physical_wf :
+  forall es p c, tctx p c es -> pgraph_wf (add_all p c es).
+Proof. exact transform_wf. Qed.
+Print Assumptions C14_physical_wf.
+
+Theorem C14_physical_acyclic :
+  forall es p c, tctx p c es -> acyclic (to_graph p) -> acyclic (to_graph (add_all p c es)).
+Proof. exact transform_acyclic. Qed.
+Print Assumptions C14_physical_acyclic.
